@@ -75,8 +75,18 @@ def seeded_cases(ctx):
         if V and rng.n(6) == 0:                       # duplicate (zeroed) keys in the current set
             for _ in range(1 + rng.n(3)):
                 cur[rng.n(V)] = cur[rng.n(V)]
-        probes = list(range(-1, V + 1)) if V <= 40 else sorted({rng.n(V) for _ in range(12 if ctx.quick else 200)} | {-1, V})
-        out.append({"kind": "set", "tag": "seeded", "cur": cur, "prev": other(), "next": other(), "u": pool + 1,
+        pr, nx = other(), other()
+        idxs = list(range(-1, V + 1)) if V <= 40 else sorted({rng.n(V) for _ in range(12 if ctx.quick else 200)} | {-1, V})
+        probes = []
+        for a in idxs:
+            kq = []
+            if 0 <= a < V:
+                if V <= 40:
+                    kq = list(range(pool + 1))
+                else:       # the same-index keys of the other epochs, some members of the current set, random ids
+                    kq = sorted(set(pr[a:a + 1] + nx[a:a + 1] + [cur[rng.n(V)] for _ in range(60)] + [rng.n(pool + 1) for _ in range(60)]))
+            probes.append({"a": a, "kq": kq})
+        out.append({"kind": "set", "tag": "seeded", "cur": cur, "prev": pr, "next": nx, "u": pool + 1,
                     "matrix": 1 if V <= 40 else 0, "probes": probes})
     return out
 
@@ -129,14 +139,14 @@ def run(ctx):
     ctx.cov["rule"] = ("records = width queries, key pairs (both argument orders), pair matrices (V<=SmallV: all a,b in -1..V) and per-index probes "
                        "(IsNeighborInEpoch row, NeighborIndicesInEpoch, AllNeighborValidators, GetNeighbors, IsNeighbor for every key id); "
                        "non-trivial = key pairs + probes with a non-empty neighbour set")
-    ctx.cov["samples"] = [json.loads(l) for l in lines[:2]] + [{k: v for k, v in json.loads(l).items() if k not in ("key", "isn")} for l in lines if '"ev":"probe"' in l][:2]
+    ctx.cov["samples"] = [json.loads(l) for l in lines[:2]] + [{k: v for k, v in json.loads(l).items() if k not in ("key", "isn", "kq")} for l in lines if '"ev":"probe"' in l][:2]
     vf.validate_trace(ctx, "Grid_Trace", shards, what="grid/initiator function differs from the specification", timeout=1500, par=6 if ctx.quick else 12)
     # make the persisted replays self-contained: prepend the generated cases the rejected records came from
     if ctx.violations and not ctx.replay:
         cases = vf.read_lines(casep)
-        for _, path in ctx.violations:
-            recs = vf.read_lines(path)
-            ids = sorted({json.loads(r)["c"] for r in recs if '"c":' in r})
+        for path in sorted({p for _, p in ctx.violations}):
+            recs = [r for r in vf.read_lines(path) if "ev" in json.loads(r)]
+            ids = sorted({json.loads(r).get("c", -1) for r in recs} - {-1})
             with open(path, "w") as f:
                 for i in ids[:20]:
                     f.write(cases[i] + "\n")
